@@ -107,10 +107,11 @@ func (e *Env) Violate(oracle, format string, a ...interface{}) {
 	if e.S.Free() {
 		return // the run was aborted (cap hit) or is tearing down: no verdicts
 	}
+	detail := fmt.Sprintf(format, a...) // before taking the lock: formatting may call into library code
 	e.mu.Lock()
 	defer e.mu.Unlock()
 	if len(e.viol) < 20 {
-		e.viol = append(e.viol, Violation{Oracle: oracle, Detail: fmt.Sprintf(format, a...)})
+		e.viol = append(e.viol, Violation{Oracle: oracle, Detail: detail})
 	}
 }
 
